@@ -238,6 +238,8 @@ def run(chk):
                ndiff == 0, json.dumps(first_diff, default=str)[:3000] if first_diff else "")
     if first_diff and not nviol:
         chk.notes.append("first model/implementation difference: " + json.dumps(first_diff, default=str)[:1500])
+    from .. import guardunit
+    guardunit.run(chk, chk.rng("guards"), {"merge"})
     if worlds and worlds[0].get("hists"):
         chk.sample({"history": worlds[0]["hists"][0]["hist"], "chromosomes": worlds[0]["hists"][0]["chroms"]})
     return chk.finish(rule=RULE)
